@@ -8,7 +8,8 @@ NOTES = {
     "C03-G": "round 8; first missed (no integer needing 16 digits in the histories; the codec was not among C03's contracts): such integers written, C03 re-verifies C01's decimal128 contracts, whose native search has them too",
     "C06-G": "round 8; first missed (no layout variant reordered the tile references): `tile-refs-reversed` variant on the self-written 700-row document",
     "C07-G": "round 8; first missed (every source document had an accurate high-water mark): a source whose recorded mark is below its largest identifier is edited and saved",
-    "C15-G": "round 8; first missed (one image per document): every styled document with an image has a second, different one",
+    "C15-G": "round 8; first missed (one image per document): every styled document with an image has a second, different one; later a structural obligation (allocators are not memoised, shared with C07)",
+    "C12-G": "round 8; caught by the stand-in; later a structural obligation (a decoded cell's merge state is looked up unconditionally)",
     "C04-F": "round 7; first missed (the encoder contract's cell had no state from an earlier decode): the cell now carries an arbitrary `_flags` word, native search encodes cells decoded from records with every flag bit",
     "C19-F": "round 7; first missed (no name whose case-folded and lower-cased forms differ): such names in the stand-in and the native search",
     "C05-F": "round 7; caught by the stand-in; a changed frame expression is now treated like a function that cannot be generated (it crashed the checker), and its native search replays an incompressible 200 KB stream",
